@@ -1,4 +1,6 @@
 import NbioVerif.Properties.C01
+import NbioVerif.Properties.ConnTimer
+import NbioVerif.Properties.ConnClose
 #print axioms ConnFull.inv_run
 #print axioms ConnFull.c01_integrity
 #print axioms ConnFull.c01_drained
@@ -9,3 +11,28 @@ import NbioVerif.Properties.C01
 #print axioms ConnFull.c01_return_sendfile
 #print axioms ConnFull.c01_error_sendfile
 #print axioms ConnFull.c01_flush_transmits_only
+-- supporting lemmas: the write deadline inside the write-path model (Properties/ConnTimer.lean)
+#print axioms ConnFull.timer_cleared_by_write
+#print axioms ConnFull.timer_cleared_by_writev
+#print axioms ConnFull.timer_cleared_by_flush
+#print axioms ConnFull.no_stale_timer_after_drain
+#print axioms ConnFull.wT_sendfile
+#print axioms ConnFull.timer_kept_by_backlog
+#print axioms ConnFull.close_stops_timer
+#print axioms ConnFull.timer_fire_closes
+#print axioms ConnFull.timer_fire_closed_noop
+#print axioms ConnFull.timer_fire_needs_expiry
+#print axioms ConnFull.timer_expire_needs_timer
+#print axioms ConnFull.timer_survives_error_close
+-- supporting lemmas: the two steps of a close (Properties/ConnClose.lean; step names shared with the C03 model)
+#print axioms ConnFull.inv_run3
+#print axioms ConnFull.close_frozen
+#print axioms ConnFull.closed_indication
+#print axioms ConnFull.teardown_effect
+#print axioms ConnFull.teardown_idle
+#print axioms ConnFull.close_bookkeeping
+#print axioms ConnFull.close_pending_or_done
+#print axioms ConnFull.no_wire_after_flip
+#print axioms ConnFull.closeNow_eq_flip_teardown
+#print axioms ConnFull.c01_accepted_is_reported
+#print axioms ConnFull.c01_reported_needs_wf
